@@ -63,6 +63,10 @@ def record(b, o, t, cart, f, partial_first=False, with_pref=False):
                 FB = fg.get_full_borders().tocoo().copy()
             V = np.asarray(fg.get_total_volumes(), dtype=float)
             V = np.asarray(fg.get_total_volumes(), dtype=float)        # asked twice: the second answer is the one that is checked
+            parts = None
+            if nP > 1:       # the same getters with their documented options, asked of the same object AFTER the full matrices
+                parts = dict(partPosA=fg.get_full_adjacency(only_position=True).tocoo().copy(), partRotA=fg.get_full_adjacency(only_orientation=True).tocoo().copy(),
+                             partPosD=fg.get_full_distances(only_position=True).tocoo().copy(), partRotD=fg.get_full_distances(only_orientation=True).tocoo().copy())
     except Exception as ex:
         rec["err"] = type(ex).__name__
         return rec
@@ -85,6 +89,8 @@ def record(b, o, t, cart, f, partial_first=False, with_pref=False):
     allsrc = np.concatenate([np.asarray(x, dtype=float) for x in src]) if any(len(x) for x in src) else np.zeros(0)
     table = np.outer(pV, rV) * f ** 3
     vc.add(allsrc, allsrc * f, allsrc * f * f, FB.data, FD.data, V, table, [1.0])
+    if parts is not None:
+        vc.add(np.asarray(parts["partPosD"].data, dtype=float), np.asarray(parts["partRotD"].data, dtype=float))
     quot = None
     if PF is not None and len(FB.data) == len(FD.data) and len(V) > int(FB.row.max(initial=-1)):
         with np.errstate(all="ignore"):
@@ -102,6 +108,12 @@ def record(b, o, t, cart, f, partial_first=False, with_pref=False):
     rec["fullA"] = [[int(i), int(j), 1] for i, j, v in zip(FA.row, FA.col, FA.data) if v]
     rec["fullB"] = [[int(i), int(j), int(vc.ids(float(v))) + 1] for i, j, v in zip(FB.row, FB.col, FB.data)]
     rec["fullD"] = [[int(i), int(j), int(vc.ids(float(v))) + 1] for i, j, v in zip(FD.row, FD.col, FD.data)]
+    if parts is not None:
+        for name, M in parts.items():
+            if name.endswith("A"):
+                rec[name] = [[int(i), int(j), 1] for i, j, v in zip(M.row, M.col, M.data) if v]
+            else:
+                rec[name] = [[int(i), int(j), int(vc.ids(float(v))) + 1] for i, j, v in zip(M.row, M.col, M.data)]
     uniq = np.unique(allsrc)
     rec["mulF"] = [[int(vc.ids(v)) + 1, int(vc.ids(v * f)) + 1] for v in uniq]
     rec["mulF2"] = [[int(vc.ids(v)) + 1, int(vc.ids(v * f * f)) + 1] for v in uniq]
